@@ -62,8 +62,23 @@ def threshold_count(chk, src, rule):
 
         def __lt__(self, o):
             return Sym(f"mask[{self._name} < {o!r}]")
-    it = SymInterp(src, None, {"np": OpenSym("np", sum=lambda m: Sym(f"count({m!r})"), linalg=OpenSym("linalg", norm=lambda x: Sym(f"norm2({x!r})"))),
-                               "scipy": OpenSym("scipy", linalg=OpenSym("linalg", norm=lambda x: Sym(f"norm2({x!r})"))), "int": lambda x: x})
+    def count(m, *a, **k):
+        return Cnt(f"count({m!r})")
+
+    class Cnt(Sym):
+        def item(self):
+            return self
+
+    class Mask(Sym):
+        def sum(self, *a, **k):
+            return count(self)
+    # a boolean mask is counted by sum / count_nonzero (function or method), of the mask itself
+    Sig.__gt__ = lambda self, o: Mask(f"mask[{self._name} > {o!r}]")
+    Sig.__ge__ = lambda self, o: Mask(f"mask[{self._name} >= {o!r}]")
+    Sig.__lt__ = lambda self, o: Mask(f"mask[{self._name} < {o!r}]")
+    norm = lambda x, *a, **k: Sym(f"norm2({x!r})") if not a and not k or (a and a[0] in (None, 2)) or k.get("ord") in (None, 2) else Sym(f"norm_other({x!r})")   # noqa: E731
+    it = SymInterp(src, None, {"np": OpenSym("np", sum=count, count_nonzero=count, linalg=OpenSym("linalg", norm=norm)),
+                               "scipy": OpenSym("scipy", linalg=OpenSym("linalg", norm=norm)), "int": lambda x: x, "len": lambda x: Sym(f"len({x!r})")})
     out = it.call_function(fi, [Sym("cfg", threshold=Sym("threshold")), Sig("sigma")])
     chk.ob(rule, "_threshold_m_trunc", repr(out) == "count(mask[(sigma)/(norm2(sigma)) > threshold])", fi.where, repr(out), "count(sigma / ||sigma||_2 > threshold)", line=fi.node.lineno,
            detail="the threshold criterion keeps the singular values whose normalised magnitude is above the threshold (normalisation by the 2-norm of the same spectrum, strict comparison, count)")
@@ -85,28 +100,51 @@ def qn_mask_and_outer(chk, src, rule):
     ao = src.func(SVDQN, "add_outer")
 
     class Arr(Sym):
-        def __init__(self, name, shape):
-            super().__init__(name)
-            self.shape = tuple(shape)
+        """array described by its axes (identities), their sizes and what it holds"""
+        def __init__(self, content, axes, sizes):
+            super().__init__(repr(content))
+            self.content, self.axes, self.shape = content, list(axes), tuple(sizes)
             self.ndim = len(self.shape)
 
         def __getitem__(self, k):
             if isinstance(k, tuple) and len(k) == 2 and k[0] is Ellipsis and isinstance(k[1], int):
-                return Arr(f"{self._name}[...,{k[1]}]", self.shape[:-1])
+                return Arr(("component", k[1], self.content), self.axes[:-1], self.shape[:-1])
             raise AnalysisError("add_outer: indexing outside the fragment")
 
-        def transpose(self, axes):
-            return Arr(f"{self._name}.T{list(axes)}", [self.shape[i] for i in axes])
+        def _perm(self, axes):
+            axes = [a % self.ndim for a in axes]
+            if sorted(axes) != list(range(self.ndim)):
+                raise AnalysisError(f"add_outer: {axes} is not a permutation of the axes")
+            return Arr(self.content, [self.axes[i] for i in axes], [self.shape[i] for i in axes])
+
+        def transpose(self, *axes):
+            axes = list(axes[0]) if len(axes) == 1 and isinstance(axes[0], (list, tuple)) else list(axes)
+            return self._perm(axes)
+
+    def moveaxis(arr, source, destination):
+        order = [k for k in range(arr.ndim) if k != source % arr.ndim]
+        order.insert(destination % arr.ndim, source % arr.ndim)
+        return arr._perm(order)
+
+    def outer(x, y):
+        return Arr(("outer", x.content, y.content), x.axes + y.axes, x.shape + y.shape)
+
+    def stack(lst, axis=0):
+        lst = list(lst)
+        if any(x.axes != lst[0].axes for x in lst):
+            raise AnalysisError("add_outer: stacking arrays with different axes")
+        ax = axis % (lst[0].ndim + 1)
+        return Arr(("stack", tuple(x.content for x in lst)), lst[0].axes[:ax] + ["component"] + lst[0].axes[ax:], lst[0].shape[:ax] + (len(lst),) + lst[0].shape[ax:])
     bad = []
     for sa, sb in (((3,), (4,)), ((2, 3), (4,)), ((2,), (3, 4)), ((1,), (1,))):
         for q in (1, 2, 3):
-            a, b = Arr("a", sa + (q,)), Arr("b", sb + (q,))
-            itx = SymInterp(src, None, {"np": Sym("np", add=Sym("add", outer=lambda x, y: Arr(f"outer({x!r},{y!r})", x.shape + y.shape)),
-                                                    array=lambda l: Arr("stack(" + ",".join(repr(x) for x in l) + ")", (len(l),) + l[0].shape))})
+            a = Arr("a", [f"a{k}" for k in range(len(sa))] + ["component"], sa + (q,))
+            b = Arr("b", [f"b{k}" for k in range(len(sb))] + ["component"], sb + (q,))
+            itx = SymInterp(src, None, {"np": Sym("np", add=Sym("add", outer=outer), array=stack, asarray=stack, stack=stack, moveaxis=moveaxis, transpose=lambda x, axes: x.transpose(axes))})
             out = itx.call_function(ao, [a, b])
-            want_shape = sa + sb + (q,)
-            want_name = "stack(" + ",".join(f"outer(a[...,{i}],b[...,{i}])" for i in range(q)) + ")"
-            if not (isinstance(out, Arr) and out.shape == want_shape and out._name.startswith(want_name + ".T")):
-                bad.append(f"a{sa + (q,)} + b{sb + (q,)}: result {getattr(out, '_name', out)} of shape {getattr(out, 'shape', None)}, expected {want_name} with shape {want_shape}")
+            want_axes = a.axes[:-1] + b.axes[:-1] + ["component"]
+            want_content = ("stack", tuple(("outer", ("component", i, "a"), ("component", i, "b")) for i in range(q)))
+            if not (isinstance(out, Arr) and out.axes == want_axes and out.content == want_content and out.shape == sa + sb + (q,)):
+                bad.append(f"a{sa + (q,)} + b{sb + (q,)}: result has axes {getattr(out, 'axes', None)} holding {getattr(out, 'content', out)}; expected axes {want_axes} holding the outer sums of component 0..{q - 1}")
     chk.ob(rule, "add_outer (12 shape combinations)", not bad, ao.where, bad[:2] or "component-wise outer sums, component axis last", "out[i.., j.., c] = a[i.., c] + b[j.., c]", line=ao.node.lineno,
            detail="labels of a merged index are the component-wise sums of the two labels, with the index of a varying slowest: " + (bad[0] if bad else ""))
